@@ -438,7 +438,6 @@ def check_copied_matcher(case, stats):
 
 def unit_files(a):
     stats = Stats()
-    sweep(stats, [{"sub": "copied-matcher", "dialect": d, "how": h} for d in sorted(DIALECTS) for h in ("copy", "deepcopy", "pickle")], check_copied_matcher)
     sweep(stats, [{"sub": "files"}], check_files)
     sweep(stats, [{"sub": "table-after-use"}], check_table_after_use)
     sweep(stats, [{"sub": "locale", "env": {"LC_ALL": "C", "LANG": "C", "PYTHONUTF8": "0", "PYTHONCOERCECLOCALE": "0"}},
